@@ -553,3 +553,229 @@ Proof.
     rewrite all_names_app in Hin. apply in_app_or in Hin. destruct Hin as [Hin|Hin]; [exact (H1 Hin)|].
     simpl in Hin. rewrite E0 in Hin. simpl in Hin. destruct Hin as [Hin|[]]. apply H2. symmetry. exact Hin.
 Qed.
+
+(** ** the ALTER group, phase by phase: ADD COLUMN..., DROP INDEX..., CREATE INDEX... *)
+Definition add_cols (l : list column) (c : ctable) : ctable :=
+  set_ct_t c (mkTable (t_name (ct_t c)) (t_without_rowid (ct_t c)) (t_strict (ct_t c)) (t_cols (ct_t c) ++ l)
+                      (t_pk (ct_t c)) (t_idx (ct_t c)) (t_fks (ct_t c)) (t_checks (ct_t c))).
+
+(** a column ALTER TABLE ADD COLUMN accepts on a table without rows (what [alterable] lets through) *)
+Definition addable (strict : bool) (c : column) : Prop :=
+  column_def_ok (mkTable [] false strict [] None [] [] []) c = Ok tt /\
+  match c_gen c with
+  | Some (_, ty) => is_stored ty = false
+  | None => match c_default c with
+            | Some (DRaw _) => False
+            | Some (DLit v) => (str_eqb v CURRENT_TIME || str_eqb v CURRENT_DATE || str_eqb v CURRENT_TIMESTAMP) = false
+            | None => True
+            end
+  end.
+
+Lemma column_def_ok_strict t t' c : t_strict t = t_strict t' -> column_def_ok t c = column_def_ok t' c.
+Proof. intros H. unfold column_def_ok. rewrite H. reflexivity. Qed.
+
+Lemma add_cols_nil c : add_cols [] c = c.
+Proof. unfold add_cols. rewrite app_nil_r. destruct c as [[t a] u r]. destruct t. reflexivity. Qed.
+Lemma add_cols_app l1 l2 c : add_cols l2 (add_cols l1 c) = add_cols (l1 ++ l2) c.
+Proof. unfold add_cols. simpl. rewrite app_assoc. reflexivity. Qed.
+
+Lemma update_ct_ext n f g l : (forall c, f c = g c) -> update_ct n f l = update_ct n g l.
+Proof.
+  intros H. induction l as [|c l IH]; simpl; [reflexivity|].
+  destruct (str_eqb (ct_name c) n); [rewrite H; reflexivity|rewrite IH; reflexivity].
+Qed.
+
+Lemma update_ct_same n f l c0 : find_ct n l = Some c0 -> update_ct n f l = update_ct n (fun _ => f c0) l.
+Proof.
+  unfold find_ct. induction l as [|c l IH]; simpl; intros F; [reflexivity|].
+  destruct (str_eqb (ct_name c) n); [inversion F; reflexivity|rewrite IH; [reflexivity|exact F]].
+Qed.
+
+Lemma exec_add_columns n l : forall d ct,
+  find_ct n (db_tables d) = Some ct -> ct_rows ct = [] ->
+  (forall c, In c l -> addable (t_strict (ct_t ct)) c) ->
+  NoDup (map c_name l) ->
+  (forall c, In c l -> has_col (ct_t ct) (c_name c) = false) ->
+  exec_all d (map (fun c => SAddColumn n c false) l) = Ok (set_tables d (update_ct n (add_cols l) (db_tables d))).
+Proof.
+  induction l as [|c l IH]; intros d ct F R HA ND HN.
+  - simpl. f_equal. destruct d as [ts fk tx]. unfold set_tables. simpl. f_equal.
+    symmetry. apply (update_ct_id n _ ts ct F). apply add_cols_nil.
+  - cbn [map exec_all exec]. unfold add_column. rewrite F.
+    rewrite (HN c (or_introl eq_refl)).
+    destruct (HA c (or_introl eq_refl)) as [DOK GD].
+    rewrite (column_def_ok_strict (ct_t ct) (mkTable [] false (t_strict (ct_t ct)) [] None [] [] []) c eq_refl), DOK.
+    set (d1 := set_tables d (update_ct n (add_cols [c]) (db_tables d))).
+    assert (STEP : (match c_gen c with
+        | Some (_, ty) => if is_stored ty then Err EAddColumn
+                          else Ok (set_tables d (update_ct n (fun ct0 => set_ct_t ct0 (add_col (ct_t ct0) c)) (db_tables d)))
+        | None =>
+          match c_default c with
+          | Some (DRaw _) => Err EAddColumn
+          | Some (DLit v) =>
+              if str_eqb v CURRENT_TIME || str_eqb v CURRENT_DATE || str_eqb v CURRENT_TIMESTAMP then Err EAddColumn
+              else if negb (c_null c) && is_null (default_of c) && negb (Nat.eqb (length (ct_rows ct)) 0) then Err ENotNullNoDefault
+              else Ok (set_tables d (update_ct n (fun ct0 =>
+                     mkCT (set_x_t (ct_x ct0) (add_col (ct_t ct0) c)) (ct_uniques ct0)
+                          (map (fun r => (fst r, snd r ++ [(c_name c, default_of c)])) (ct_rows ct0))) (db_tables d)))
+          | None =>
+              if negb (c_null c) && negb (Nat.eqb (length (ct_rows ct)) 0) then Err ENotNullNoDefault
+              else Ok (set_tables d (update_ct n (fun ct0 =>
+                     mkCT (set_x_t (ct_x ct0) (add_col (ct_t ct0) c)) (ct_uniques ct0)
+                          (map (fun r => (fst r, snd r ++ [(c_name c, VNull)])) (ct_rows ct0))) (db_tables d)))
+          end
+        end) = Ok d1).
+    { assert (U : forall g, g ct = add_cols [c] ct -> update_ct n g (db_tables d) = update_ct n (add_cols [c]) (db_tables d)).
+      { intros g Hg. rewrite (update_ct_same n g _ ct F), (update_ct_same n (add_cols [c]) _ ct F), Hg. reflexivity. }
+      rewrite R. simpl length. rewrite Nat.eqb_refl. rewrite !andb_false_r.
+      destruct (c_gen c) as [[x ty]|].
+      - rewrite GD. reflexivity.
+      - destruct (c_default c) as [[v|x]|].
+        + rewrite GD. unfold d1. f_equal. f_equal. apply U.
+          destruct ct as [x0 u r]. simpl in R. subst r. reflexivity.
+        + destruct GD.
+        + unfold d1. f_equal. f_equal. apply U. destruct ct as [x0 u r]. simpl in R. subst r. reflexivity. }
+    rewrite STEP.
+    inversion ND as [|x xs Hx Hxs]; subst.
+    assert (F1 : find_ct n (db_tables d1) = Some (add_cols [c] ct)).
+    { unfold d1. simpl. apply (find_ct_update n (add_cols [c]) _ ct); [reflexivity|exact F]. }
+    rewrite (IH d1 (add_cols [c] ct) F1).
+    + f_equal. unfold d1, set_tables. simpl. f_equal.
+      rewrite (update_ct_update n (add_cols [c]) (add_cols l)); [|reflexivity].
+      apply update_ct_ext. intros c0. apply add_cols_app.
+    + exact R.
+    + intros c1 H1. apply HA. right. exact H1.
+    + exact Hxs.
+    + intros c1 H1. unfold has_col, find_col. simpl. rewrite find_app'.
+      assert (X := HN c1 (or_intror H1)). unfold has_col, find_col in X.
+      destruct (find (fun c0 => str_eqb (c_name c0) (c_name c1)) (t_cols (ct_t ct))); [discriminate|].
+      simpl. destruct (str_eqb (c_name c) (c_name c1)) eqn:E; [|reflexivity].
+      apply str_eqb_eq in E. exfalso. apply Hx. rewrite E. apply in_map. exact H1.
+Qed.
+
+Definition drop_idx (ns : list str) (c : ctable) : ctable :=
+  set_ct_t c (set_t_idx (ct_t c) (filter (fun i => negb (existsb (str_eqb (i_name i)) ns)) (t_idx (ct_t c)))).
+
+Lemma filter_id {A} (f : A -> bool) l : (forall x, In x l -> f x = true) -> filter f l = l.
+Proof.
+  induction l as [|a l IH]; simpl; intros H; [reflexivity|].
+  rewrite (H a (or_introl eq_refl)). rewrite IH; [reflexivity|]. intros x Hx. apply H. right. exact Hx.
+Qed.
+
+Lemma drop_idx_nil c : drop_idx [] c = c.
+Proof.
+  unfold drop_idx. simpl. rewrite filter_id; [|reflexivity]. rewrite set_t_idx_id. apply set_ct_t_id.
+Qed.
+
+Lemma filter_drop_app (l1 l2 : list str) (l : list index) :
+  filter (fun i => negb (existsb (str_eqb (i_name i)) l2)) (filter (fun i => negb (existsb (str_eqb (i_name i)) l1)) l)
+  = filter (fun i => negb (existsb (str_eqb (i_name i)) (l1 ++ l2))) l.
+Proof.
+  induction l as [|i l IH]; simpl; [reflexivity|].
+  rewrite existsb_app. destruct (existsb (str_eqb (i_name i)) l1); simpl; [exact IH|].
+  destruct (existsb (str_eqb (i_name i)) l2); simpl; [exact IH|]. rewrite IH. reflexivity.
+Qed.
+
+Lemma drop_idx_app l1 l2 c : drop_idx l2 (drop_idx l1 c) = drop_idx (l1 ++ l2) c.
+Proof.
+  destruct c as [[t a] u r]. destruct t. unfold drop_idx. simpl. rewrite filter_drop_app. reflexivity.
+Qed.
+
+Lemma all_names_drop_incl n ns l x : In x (all_names (update_ct n (drop_idx ns) l)) -> In x (all_names l).
+Proof.
+  induction l as [|c l IH]; simpl; [tauto|].
+  destruct (str_eqb (ct_name c) n); simpl.
+  - intros [H|H]; [left; exact H|]. right. apply in_app_or in H. apply in_or_app. destruct H as [H|H]; [left|right; exact H].
+    apply in_map_iff in H. destruct H as [i [E Hi]]. apply filter_In in Hi. rewrite <- E. apply in_map. tauto.
+  - intros [H|H]; [left; exact H|]. right. apply in_app_or in H. apply in_or_app. destruct H as [H|H]; [left; exact H|right; apply IH; exact H].
+Qed.
+
+Lemma NoDup_map_filter {A B} (f : A -> B) (p : A -> bool) l : NoDup (map f l) -> NoDup (map f (filter p l)).
+Proof.
+  induction l as [|a l IH]; simpl; intros H; [constructor|]. inversion H; subst.
+  destruct (p a); simpl; [|apply IH; assumption]. constructor; [|apply IH; assumption].
+  intros X. apply H2. apply in_map_iff in X. destruct X as [y [E Hy]]. apply filter_In in Hy. rewrite <- E. apply in_map. tauto.
+Qed.
+
+Lemma all_names_drop_NoDup n ns l : NoDup (all_names l) -> NoDup (all_names (update_ct n (drop_idx ns) l)).
+Proof.
+  induction l as [|c l IH]; simpl; intros H; [constructor|].
+  destruct (str_eqb (ct_name c) n); simpl.
+  - change (ct_name (drop_idx ns c)) with (ct_name c).
+    inversion H as [|y ys Hy Hys]; subst. constructor.
+    + intros X. apply Hy. apply in_app_or in X. apply in_or_app. destruct X as [X|X]; [left|right; exact X].
+      apply in_map_iff in X. destruct X as [i [E Hi]]. apply filter_In in Hi. rewrite <- E. apply in_map. tauto.
+    + assert (H1 := NoDup_app_l _ _ Hys). assert (H2 := NoDup_app_r _ _ Hys).
+      clear -Hys H1 H2.
+      set (p := fun i : index => negb (existsb (str_eqb (i_name i)) ns)).
+      induction (t_idx (ct_t c)) as [|i is IHi]; simpl in *; [exact H2|].
+      inversion Hys as [|y ys Hy Hys']; subst. inversion H1; subst.
+      destruct (p i); simpl; [|apply IHi; assumption]. constructor; [|apply IHi; assumption].
+      intros X. apply Hy. apply in_app_or in X. apply in_or_app. destruct X as [X|X]; [left|right; exact X].
+      apply in_map_iff in X. destruct X as [j [E Hj]]. apply filter_In in Hj. rewrite <- E. apply in_map. tauto.
+  - inversion H as [|y ys Hy Hys]; subst. constructor.
+    + intros X. apply Hy. apply in_app_or in X. apply in_or_app. destruct X as [X|X]; [left; exact X|right].
+      eapply all_names_drop_incl; eauto.
+    + assert (H1 := NoDup_app_l _ _ Hys). assert (H2 := NoDup_app_r _ _ Hys).
+      clear -Hys H1 H2 IH. induction (map i_name (t_idx (ct_t c))) as [|x xs IHx]; simpl in *; [apply IH; exact H2|].
+      inversion Hys as [|y ys Hy Hys']; subst. inversion H1; subst. constructor; [|apply IHx; assumption].
+      intros X. apply Hy. apply in_app_or in X. apply in_or_app. destruct X as [X|X]; [left; exact X|right].
+      eapply all_names_drop_incl; eauto.
+Qed.
+
+Lemma drop_index_step d t ct n :
+  NoDup (all_names (db_tables d)) -> find_ct t (db_tables d) = Some ct ->
+  In n (map i_name (t_idx (ct_t ct))) ->
+  exec d (SDropIndex n) = Ok (set_tables d (update_ct t (drop_idx [n]) (db_tables d))).
+Proof.
+  intros ND F Hn. simpl. unfold drop_index.
+  destruct (find_ct_in _ _ _ F) as [F1 F2].
+  assert (E : existsb (has_index n) (db_tables d) = true).
+  { apply existsb_exists. exists ct. split; [exact F1|]. unfold has_index. apply existsb_exists.
+    apply in_map_iff in Hn. destruct Hn as [i [Ei Hi]]. exists i. split; [exact Hi|]. rewrite Ei. apply str_eqb_refl. }
+  rewrite E. f_equal. f_equal.
+  revert ND F F1. generalize (db_tables d). induction l as [|c l IH]; intros ND F F1; [destruct F1|].
+  simpl. unfold find_ct in F. simpl in F.
+  destruct (str_eqb (ct_name c) t) eqn:Et.
+  - inversion F; subst c. f_equal.
+    + unfold drop_idx. f_equal. f_equal. apply filter_ext. intros i. simpl. rewrite orb_false_r. reflexivity.
+    + (* the other tables hold no index called n *)
+      simpl in ND. inversion ND as [|y ys Hy Hys]; subst.
+      rewrite <- (map_id l) at 2. apply map_ext_in. intros c Hc.
+      rewrite filter_id; [rewrite set_t_idx_id; apply set_ct_t_id|].
+      intros i Hi. apply negb_true_iff. apply str_eqb_neq. intros Ei.
+      apply (NoDup_app_disj _ _ n Hys); [exact Hn|]. rewrite <- Ei. eapply in_all_names_index; eauto.
+  - destruct F1 as [->|F1]; [rewrite F2, str_eqb_refl in Et; discriminate|].
+    f_equal; [|apply IH; auto].
+    + simpl in ND. inversion ND as [|y ys Hy Hys]; subst.
+      rewrite filter_id; [rewrite set_t_idx_id; apply set_ct_t_id|].
+      intros i Hi. apply negb_true_iff. apply str_eqb_neq. intros Ei.
+      apply (NoDup_app_disj _ _ n Hys); [rewrite <- Ei; apply in_map; exact Hi|].
+      apply in_all_names. exists ct. split; [exact F1|right; exact Hn].
+    + simpl in ND. inversion ND; subst. eapply NoDup_app_r; eauto.
+Qed.
+
+Lemma exec_drop_indexes t ns : forall d ct,
+  NoDup (all_names (db_tables d)) -> find_ct t (db_tables d) = Some ct ->
+  (forall n, In n ns -> In n (map i_name (t_idx (ct_t ct)))) -> NoDup ns ->
+  exec_all d (map SDropIndex ns) = Ok (set_tables d (update_ct t (drop_idx ns) (db_tables d))).
+Proof.
+  induction ns as [|n ns IH]; intros d ct ND F HN NDn.
+  - simpl. f_equal. destruct d as [ts fk tx]. unfold set_tables. simpl. f_equal.
+    symmetry. apply (update_ct_id t _ ts ct F). apply drop_idx_nil.
+  - cbn [map exec_all]. rewrite (drop_index_step d t ct n ND F (HN n (or_introl eq_refl))).
+    set (d1 := set_tables d (update_ct t (drop_idx [n]) (db_tables d))).
+    inversion NDn as [|x xs Hx Hxs]; subst.
+    assert (F1 : find_ct t (db_tables d1) = Some (drop_idx [n] ct)).
+    { unfold d1. simpl. apply (find_ct_update t (drop_idx [n]) _ ct); [reflexivity|exact F]. }
+    rewrite (IH d1 (drop_idx [n] ct)).
+    + f_equal. unfold d1, set_tables. simpl. f_equal.
+      rewrite (update_ct_update t (drop_idx [n]) (drop_idx ns)); [|reflexivity].
+      apply update_ct_ext. intros c0. apply drop_idx_app.
+    + unfold d1. simpl. apply all_names_drop_NoDup. exact ND.
+    + exact F1.
+    + intros m Hm. simpl. specialize (HN m (or_intror Hm)). apply in_map_iff in HN. destruct HN as [i [Ei Hi]].
+      apply in_map_iff. exists i. split; [exact Ei|]. apply filter_In. split; [exact Hi|].
+      simpl. rewrite orb_false_r. apply negb_true_iff. apply str_eqb_neq. rewrite Ei. intros X. apply Hx. rewrite <- X. exact Hm.
+    + exact Hxs.
+Qed.
